@@ -5,7 +5,7 @@ From Coq Require Import String List NArith Bool Lia.
 From J5V.lib Require Import Outcome Corr Strcase.
 From J5V.model Require Import J5sAst Desc J5sWalk J5sLink J5sConvert J5sContract J5sValid J5sEdit J5sCorr.
 From J5V.proofs Require Import J5sProofs J5sContractProofs J5sLinkProofs J5sResolveProofs J5sExtProofs J5sTotalProofs
-     J5sCompileProofs J5sLinkExtProofs J5sNameProofs J5sNamedProofs J5sPkgExtProofs.
+     J5sCompileProofs J5sLinkExtProofs J5sNameProofs J5sNamedProofs J5sPkgExtProofs J5sWitnessProofs.
 Import ListNotations.
 Local Open Scope N_scope.
 
@@ -464,4 +464,37 @@ Proof.
   - eexists. split; [left; reflexivity|vm_compute; reflexivity].
   - exists D, D'. repeat split; try assumption.
     intros ->. vm_compute in Hc, Hc'. pose proof (eq_trans Hc (eq_sym Hc')) as E. discriminate E.
+Qed.
+
+(* non-vacuity of c13_full for enums WITHOUT options: `enum Status {}` + option ACTIVE (the
+   implicit zero value stays) + option OLD_UNSPECIFIED (now appended to an enum that has
+   options: a later option, number 2) satisfy seq_ok, and STATUS_UNSPECIFIED = 0 is kept; only
+   the same OLD_UNSPECIFIED appended FIRST is the recorded finding (J5sWitnessProofs) *)
+Definition w_empty_enum_ok_edits : list edit :=
+  [EAppendOption 0 0 (b "ACTIVE"); EAppendOption 0 0 (b "OLD_UNSPECIFIED")].
+
+Lemma empty_enum_other_option_preserves :
+  seq_ok w_empty_enum w_empty_enum_ok_edits /\
+  exists D D', compile w_empty_enum (b "foo.v1") = Ok D /\
+               compile (apply_edits w_empty_enum w_empty_enum_ok_edits) (b "foo.v1") = Ok D' /\
+               files_ext D D' /\
+               zero_value D' = Some (b "STATUS_UNSPECIFIED", 0) /\
+               map en_vals (flat_map fl_enums D') =
+                 [[(b "STATUS_UNSPECIFIED", 0); (b "STATUS_ACTIVE", 1); (b "STATUS_OLD_UNSPECIFIED", 2)]].
+Proof.
+  assert (Hseq : seq_ok w_empty_enum w_empty_enum_ok_edits).
+  { cbn [seq_ok w_empty_enum_ok_edits]. split.
+    - eexists. split; [reflexivity|]. right. vm_compute. reflexivity.
+    - split; [vm_compute; reflexivity|]. split.
+      + eexists. split; [reflexivity|]. left. vm_compute. discriminate.
+      + split; [vm_compute; reflexivity|exact I]. }
+  split; [exact Hseq|].
+  assert (Hc : exists D, compile w_empty_enum (b "foo.v1") = Ok D) by (eexists; vm_compute; reflexivity).
+  destruct Hc as [D Hc].
+  destruct (c13_full w_empty_enum_ok_edits w_empty_enum (b "foo.v1") D) as (D' & Hc' & Hext); try assumption.
+  - vm_compute. reflexivity.
+  - intros x [<-|[]]. vm_compute. discriminate.
+  - eexists. split; [left; reflexivity|vm_compute; reflexivity].
+  - exists D, D'. split; [exact Hc|]. split; [exact Hc'|]. split; [exact Hext|].
+    vm_compute in Hc'. inversion Hc'. split; vm_compute; reflexivity.
 Qed.
